@@ -1,1 +1,276 @@
-(* placeholder: being written *)
+(* ConcMutex.v — Part A of Conc.v: every interleaving of lock-protected operations is serializable
+   in lock-release order (any number of locks, any step granularity); nothing is lost or reordered;
+   mutual exclusion. *)
+From Coq Require Import List Arith Lia Bool.
+From SC Require Import Model.Conc.
+Import ListNotations.
+
+Section MutexProofs.
+Variables S R Lc : Type.
+
+(* inside the section only: make the type parameters implicit *)
+Arguments op_lock {S R Lc} _.
+Arguments init_lc {S R Lc} _.
+Arguments steps {S R Lc} _.
+Arguments result {S R Lc} _ _.
+Arguments run_steps {S Lc} _ _.
+Arguments run_op {S R Lc} _ _.
+Arguments todo {S R Lc} _.
+Arguments cur {S R Lc} _.
+Arguments done {S R Lc} _.
+Arguments mkthr {S R Lc} _ _ _.
+Arguments sh {S R Lc} _ _.
+Arguments holder {S R Lc} _ _.
+Arguments thrs {S R Lc} _ _.
+Arguments log {S R Lc} _.
+Arguments mkcfg {S R Lc} _ _ _ _.
+Arguments cstep {S R Lc} _ _.
+Arguments exec {S R Lc} _ _.
+Arguments serial {S R Lc} _ _.
+Arguments mine {R} _ _.
+Arguments init_config {S R Lc} _ _.
+Arguments quiescent {S R Lc} _.
+
+Notation opd := (opd S R Lc).
+Notation config := (config S R Lc).
+
+(* ---------------------------------------------------------------- algebra *)
+Lemma fupd_same {A} (f : nat -> A) k v : fupd f k v k = v.
+Proof. unfold fupd. rewrite Nat.eqb_refl. reflexivity. Qed.
+
+Lemma fupd_other {A} (f : nat -> A) k v u : u <> k -> fupd f k v u = f u.
+Proof. unfold fupd. intros H. apply Nat.eqb_neq in H. rewrite H. reflexivity. Qed.
+
+Lemma serial_app (l : list (nat * opd)) t o (s : nat -> S) :
+  serial (l ++ [(t, o)]) s =
+  (fst (run_op o (fst (serial l s))), snd (serial l s) ++ [(t, snd (run_op o (fst (serial l s))))]).
+Proof.
+  revert s; induction l as [|[t' o'] l IH]; intros s; simpl; [reflexivity|].
+  rewrite IH. reflexivity.
+Qed.
+
+(* run_op changes only the component of its own lock *)
+Lemma run_op_same (o : opd) (s : nat -> S) :
+  fst (run_op o s) (op_lock o) = fst (run_steps (steps o) (s (op_lock o), init_lc o)).
+Proof. unfold run_op. simpl. apply fupd_same. Qed.
+
+Lemma run_op_other (o : opd) (s : nat -> S) l : l <> op_lock o -> fst (run_op o s) l = s l.
+Proof. intros H. unfold run_op. simpl. apply fupd_other. exact H. Qed.
+
+(* appending an operation on another lock does not affect the serial result at component l *)
+Lemma serial_app_other (lg : list (nat * opd)) t o (s : nat -> S) l :
+  l <> op_lock o -> fst (serial (lg ++ [(t, o)]) s) l = fst (serial lg s) l.
+Proof. intros H. rewrite serial_app. cbn [fst snd]. apply run_op_other. exact H. Qed.
+
+Lemma mine_app t (res : list (nat * R)) u x :
+  mine t (res ++ [(u, x)]) = mine t res ++ (if Nat.eqb u t then [x] else []).
+Proof. unfold mine. rewrite filter_app, map_app. simpl. destruct (Nat.eqb u t); reflexivity. Qed.
+
+(* ---------------------------------------------------------------- the invariant *)
+Definition Inv (s0 : nat -> S) (c : config) : Prop :=
+  (forall t, done (thrs c t) = mine t (snd (serial (log c) s0))) /\
+  (forall l, match holder c l with
+             | None => sh c l = fst (serial (log c) s0) l
+             | Some h =>
+                 exists o fs lc, cur (thrs c h) = Some (o, fs, lc) /\ op_lock o = l /\
+                   run_steps fs (sh c l, lc) = run_steps (steps o) (fst (serial (log c) s0) l, init_lc o)
+             end) /\
+  (forall t o fs lc, cur (thrs c t) = Some (o, fs, lc) -> holder c (op_lock o) = Some t).
+
+(* a thread outside any operation holds no lock (consequence of the invariant) *)
+Lemma Inv_idle_holds_nothing s0 c t l : Inv s0 c -> cur (thrs c t) = None -> holder c l <> Some t.
+Proof.
+  intros (_ & Hh & _) Hn Hl. specialize (Hh l). rewrite Hl in Hh.
+  destruct Hh as (o & fs & lc & Hc & _). rewrite Hn in Hc. discriminate.
+Qed.
+
+Lemma init_inv s0 (ths : nat -> list opd) : Inv s0 (init_config s0 ths).
+Proof.
+  unfold init_config. split; [|split]; simpl.
+  - reflexivity.
+  - reflexivity.
+  - intros; discriminate.
+Qed.
+
+Lemma cstep_inv s0 c t : Inv s0 c -> Inv s0 (cstep c t).
+Proof.
+  intros (Hdone & Hh & Hcur). unfold cstep.
+  destruct (cur (thrs c t)) as [[[o fs] lc]|] eqn:Ecur.
+  - (* t is inside operation o, hence the holder of op_lock o *)
+    pose proof (Hcur _ _ _ _ Ecur) as Hk.
+    pose proof (Hh (op_lock o)) as Hhk. rewrite Hk in Hhk.
+    destruct Hhk as (o' & fs' & lc' & Hc & _ & Hrun).
+    rewrite Ecur in Hc. inversion Hc; subst o' fs' lc'. clear Hc.
+    assert (Hoth : forall l h, l <> op_lock o -> holder c l = Some h -> h <> t).
+    { intros l h Hl Hhl ->. specialize (Hh l). rewrite Hhl in Hh.
+      destruct Hh as (o' & fs' & lc' & Hc & Hlk & _). rewrite Ecur in Hc.
+      inversion Hc; subst. congruence. }
+    destruct fs as [|f fs].
+    + (* release *)
+      split; [|split]; simpl.
+      * intros u. rewrite serial_app. simpl. rewrite mine_app.
+        destruct (Nat.eq_dec u t) as [->|Hne].
+        -- rewrite fupd_same, Nat.eqb_refl. simpl. rewrite Hdone. f_equal. f_equal.
+           unfold run_op. simpl. simpl in Hrun. rewrite <- Hrun. reflexivity.
+        -- rewrite fupd_other by auto.
+           assert (Nat.eqb t u = false) as -> by (apply Nat.eqb_neq; auto).
+           rewrite app_nil_r. apply Hdone.
+      * intros l. destruct (Nat.eq_dec l (op_lock o)) as [->|Hl].
+        -- rewrite fupd_same. rewrite serial_app. cbn [fst snd]. rewrite run_op_same.
+           simpl in Hrun. rewrite <- Hrun. reflexivity.
+        -- rewrite fupd_other by auto. rewrite serial_app_other by auto.
+           specialize (Hh l). destruct (holder c l) as [h|] eqn:Ehl; [|exact Hh].
+           rewrite fupd_other by (eapply Hoth; eauto). exact Hh.
+      * intros u o' fs' lc' Hc.
+        destruct (Nat.eq_dec u t) as [->|Hne].
+        { rewrite fupd_same in Hc. simpl in Hc. discriminate. }
+        rewrite fupd_other in Hc by auto. apply Hcur in Hc.
+        destruct (Nat.eq_dec (op_lock o') (op_lock o)) as [E|E].
+        { rewrite E in Hc. rewrite Hk in Hc. congruence. }
+        rewrite fupd_other by auto. exact Hc.
+    + (* one body step *)
+      split; [|split]; simpl.
+      * intros u. destruct (Nat.eq_dec u t) as [->|Hne];
+          [rewrite fupd_same; simpl; apply Hdone | rewrite fupd_other by auto; apply Hdone].
+      * intros l. destruct (Nat.eq_dec l (op_lock o)) as [->|Hl].
+        -- rewrite Hk. exists o, fs, (snd (f (sh c (op_lock o), lc))).
+           rewrite !fupd_same. simpl. split; [reflexivity|]. split; [reflexivity|].
+           rewrite <- Hrun. simpl. destruct (f (sh c (op_lock o), lc)); reflexivity.
+        -- rewrite fupd_other by auto.
+           specialize (Hh l). destruct (holder c l) as [h|] eqn:Ehl; [|exact Hh].
+           rewrite fupd_other by (eapply Hoth; eauto). exact Hh.
+      * intros u o' fs' lc' Hc.
+        destruct (Nat.eq_dec u t) as [->|Hne].
+        { rewrite fupd_same in Hc. simpl in Hc. inversion Hc; subst. exact Hk. }
+        rewrite fupd_other in Hc by auto. eapply Hcur; eauto.
+  - (* t is outside: tries to acquire *)
+    destruct (todo (thrs c t)) as [|o rest] eqn:Etodo; [split; [|split]; assumption|].
+    destruct (holder c (op_lock o)) as [h0|] eqn:Ek; [split; [|split]; assumption|].
+    assert (Hoth : forall l h, holder c l = Some h -> h <> t).
+    { intros l h Hhl ->. specialize (Hh l). rewrite Hhl in Hh.
+      destruct Hh as (o' & fs' & lc' & Hc & _). rewrite Ecur in Hc. discriminate. }
+    split; [|split]; simpl.
+    + intros u. destruct (Nat.eq_dec u t) as [->|Hne];
+        [rewrite fupd_same; simpl; apply Hdone | rewrite fupd_other by auto; apply Hdone].
+    + intros l. destruct (Nat.eq_dec l (op_lock o)) as [->|Hl].
+      * rewrite fupd_same. exists o, (steps o), (init_lc o).
+        rewrite fupd_same. simpl. split; [reflexivity|]. split; [reflexivity|].
+        specialize (Hh (op_lock o)). rewrite Ek in Hh. rewrite Hh. reflexivity.
+      * rewrite fupd_other by auto.
+        specialize (Hh l). destruct (holder c l) as [h|] eqn:Ehl; [|exact Hh].
+        rewrite fupd_other by (eapply Hoth; eauto). exact Hh.
+    + intros u o' fs' lc' Hc.
+      destruct (Nat.eq_dec u t) as [->|Hne].
+      { rewrite fupd_same in Hc. simpl in Hc. inversion Hc; subst. apply fupd_same. }
+      rewrite fupd_other in Hc by auto. apply Hcur in Hc.
+      destruct (Nat.eq_dec (op_lock o') (op_lock o)) as [E|E].
+      { rewrite E in Hc. congruence. }
+      rewrite fupd_other by auto. exact Hc.
+Qed.
+
+Lemma exec_inv s0 c sched : Inv s0 c -> Inv s0 (exec c sched).
+Proof.
+  unfold exec. revert c. induction sched as [|t r IH]; intros c H; simpl; [exact H|].
+  apply IH. apply cstep_inv. exact H.
+Qed.
+
+(* every schedule of lock-protected operations ends, whenever no lock is held, in exactly the state and
+   with exactly the per-thread results of executing the completed operations one at a time in the order
+   in which they released their lock *)
+Theorem mutex_serializable (s0 : nat -> S) (ths : nat -> list opd) (sched : list nat) :
+  let c := exec (init_config s0 ths) sched in
+  quiescent c ->
+  (forall l, sh c l = fst (serial (log c) s0) l)
+  /\ (forall t, done (thrs c t) = mine t (snd (serial (log c) s0))).
+Proof.
+  intros c Hq.
+  destruct (exec_inv s0 (init_config s0 ths) sched (init_inv s0 ths)) as (Hd & Hh & _).
+  fold c in Hd, Hh. split; [|exact Hd].
+  intros l. specialize (Hh l). rewrite (Hq l) in Hh. exact Hh.
+Qed.
+
+(* the same under the invariant, for locks that happen to be free (stronger: no global quiescence needed) *)
+Theorem mutex_serializable_per_lock (s0 : nat -> S) (ths : nat -> list opd) (sched : list nat) (l : nat) :
+  let c := exec (init_config s0 ths) sched in
+  holder c l = None -> sh c l = fst (serial (log c) s0) l.
+Proof.
+  intros c Hq.
+  destruct (exec_inv s0 (init_config s0 ths) sched (init_inv s0 ths)) as (_ & Hh & _).
+  fold c in Hh. specialize (Hh l). rewrite Hq in Hh. exact Hh.
+Qed.
+
+(* ---------------------------------------------------------------- completeness of the log *)
+Definition progress_of (c : config) (t : nat) : list opd :=
+  map snd (filter (fun p => Nat.eqb (fst p) t) (log c))
+  ++ (match cur (thrs c t) with Some (o, _, _) => [o] | None => [] end)
+  ++ todo (thrs c t).
+
+Lemma cstep_progress c t u : progress_of (cstep c t) u = progress_of c u.
+Proof.
+  unfold progress_of, cstep.
+  destruct (cur (thrs c t)) as [[[o fs] lc]|] eqn:Ecur.
+  - destruct fs as [|f fs]; simpl.
+    + rewrite filter_app, map_app. simpl.
+      destruct (Nat.eq_dec u t) as [->|Hne].
+      * rewrite fupd_same, Nat.eqb_refl, Ecur. simpl. rewrite <- app_assoc. reflexivity.
+      * rewrite fupd_other by auto.
+        assert (Nat.eqb t u = false) as -> by (apply Nat.eqb_neq; auto).
+        simpl. rewrite app_nil_r. reflexivity.
+    + destruct (Nat.eq_dec u t) as [->|Hne].
+      * rewrite fupd_same, Ecur. reflexivity.
+      * rewrite fupd_other by auto. reflexivity.
+  - destruct (todo (thrs c t)) as [|o rest] eqn:Etodo; [reflexivity|].
+    destruct (holder c (op_lock o)); [reflexivity|]. simpl.
+    destruct (Nat.eq_dec u t) as [->|Hne].
+    + rewrite fupd_same, Ecur, Etodo. reflexivity.
+    + rewrite fupd_other by auto. reflexivity.
+Qed.
+
+Lemma exec_progress c sched u : progress_of (exec c sched) u = progress_of c u.
+Proof.
+  unfold exec. revert c. induction sched as [|t r IH]; intros c; simpl; [reflexivity|].
+  rewrite IH. apply cstep_progress.
+Qed.
+
+(* nothing is lost or reordered: each thread's completed operations, then the one in progress, then the
+   ones still to do, are exactly its program *)
+Theorem mutex_log_complete (s0 : nat -> S) (ths : nat -> list opd) (sched : list nat) (t : nat) :
+  let c := exec (init_config s0 ths) sched in
+  map snd (filter (fun p => Nat.eqb (fst p) t) (log c))
+  ++ (match cur (thrs c t) with Some (o, _, _) => [o] | None => [] end)
+  ++ todo (thrs c t) = ths t.
+Proof.
+  intros c. change (progress_of c t = ths t). unfold c. rewrite exec_progress. reflexivity.
+Qed.
+
+(* mutual exclusion: a thread inside an operation holds that operation's lock, and only one thread does *)
+Theorem mutex_exclusion (s0 : nat -> S) (ths : nat -> list opd) (sched : list nat) (t : nat) o fs lc :
+  let c := exec (init_config s0 ths) sched in
+  cur (thrs c t) = Some (o, fs, lc) -> holder c (op_lock o) = Some t.
+Proof.
+  intros c Hc.
+  destruct (exec_inv s0 (init_config s0 ths) sched (init_inv s0 ths)) as (_ & _ & Hcur).
+  eapply Hcur. exact Hc.
+Qed.
+
+(* corollary: two threads inside operations on the same lock are the same thread *)
+Corollary mutex_exclusion_unique (s0 : nat -> S) (ths : nat -> list opd) (sched : list nat) t u o fs lc o' fs' lc' :
+  let c := exec (init_config s0 ths) sched in
+  cur (thrs c t) = Some (o, fs, lc) -> cur (thrs c u) = Some (o', fs', lc') ->
+  op_lock o = op_lock o' -> t = u.
+Proof.
+  intros c H1 H2 E.
+  apply (mutex_exclusion s0 ths sched) in H1. apply (mutex_exclusion s0 ths sched) in H2.
+  rewrite E in H1. rewrite H1 in H2. congruence.
+Qed.
+
+End MutexProofs.
+
+Check mutex_serializable.
+Check mutex_log_complete.
+Check mutex_exclusion.
+Print Assumptions mutex_serializable.
+Print Assumptions mutex_serializable_per_lock.
+Print Assumptions mutex_log_complete.
+Print Assumptions mutex_exclusion.
+Print Assumptions mutex_exclusion_unique.
